@@ -75,7 +75,10 @@ class PDFParser(PSStackParser[Union[PSKeyword, PDFStream, PDFObjRef, None]]):
 
         elif token is self.KEYWORD_STREAM:
             # stream object
-            ((_, dic),) = self.pop(1)
+            objs = self.pop(1)
+            if not objs:
+                raise PDFSyntaxError("stream keyword without a dictionary")
+            ((_, dic),) = objs
             dic = dict_value(dic)
             objlen = 0
             if not self.fallback:
